@@ -2,7 +2,10 @@
     the flush closure of flushLoop (writer) and context cancellation, at the
     granularity of the code's own synchronisation points
     (store/store.go: GetByHeight, getByHeight, flushLoop/flush closure,
-    ensureInit, advanceHead, recedeTail; store/heightsub.go: all).
+    ensureInit, advanceHead, recedeTail; store/heightsub.go: all), as of
+    /repo 33d75f6: flush = pending.Append; ensureInit; Notify; advanceHead;
+    recedeTail -- and heightSub.WaitFor looks the height up again after it
+    has registered the caller (the repair of the lost wake-up, finding F5).
 
     Definitions only (no proofs). Self-contained abstraction of the store:
     head / tail pointers, one height->id map standing for pending+disk (the
